@@ -15,6 +15,7 @@ import (
 	"github.com/goblimey/go-ntrip/apps/appcore"
 	"github.com/goblimey/go-ntrip/jsonconfig"
 	"github.com/goblimey/go-ntrip/rtcm/handler"
+	"github.com/goblimey/go-ntrip/rtcm/header"
 	"github.com/goblimey/go-ntrip/rtcm/type1005"
 	"github.com/goblimey/go-ntrip/rtcm/type1006"
 	msm4 "github.com/goblimey/go-ntrip/rtcm/type_msm4/message"
@@ -349,6 +350,16 @@ func check(c Case, o *stats.Obs) error {
 								r.StationID = 4095 - r.StationID
 							case *type1006.Message:
 								r.AntennaHeight = 65535 - r.AntennaHeight
+							case *msm4.Message:
+								scribbleHeader(r.Header)
+								for i := range r.Satellites {
+									r.Satellites[i].ID = 0
+								}
+							case *msm7.Message:
+								scribbleHeader(r.Header)
+								for i := range r.Satellites {
+									r.Satellites[i].ID = 0
+								}
 							}
 							m.Readable = nil
 							m.ErrorMessage = "scribbled by consumer"
@@ -391,6 +402,42 @@ func check(c Case, o *stats.Obs) error {
 		}
 		o.Class("consumers")
 	}
+	// (5) one message analysed once (not displayed), then value copies of it - they share the decoded part -
+	// displayed by several goroutines at the same moment: every display must be the whole text.
+	if c.Handlers > 1 {
+		for i, f := range c.Pool {
+			if base[i].Type < 0 {
+				continue
+			}
+			hh := handler.New(drive.StartTime, lv)
+			m, _ := hh.GetMessage(append([]byte{}, f...))
+			if m == nil {
+				continue
+			}
+			handler.Analyse(m)
+			texts := make([]string, c.Handlers)
+			start := make(chan struct{})
+			var wg sync.WaitGroup
+			for g := 0; g < c.Handlers; g++ {
+				wg.Add(1)
+				cp := *m
+				go func(g int, cp handler.Message) {
+					defer wg.Done()
+					<-start
+					texts[g] = stripTimes(cp.String())
+				}(g, cp)
+			}
+			close(start)
+			wg.Wait()
+			for g, txt := range texts {
+				if txt != base[i].Text {
+					o.Key = "shared-analysed-message-displayed-concurrently"
+					return fmt.Errorf("pool entry %d (%x) analysed once, then %d value copies displayed at the same time: copy %d shows\n%s\n--- decoded and displayed alone ---\n%s", i, []byte(f), c.Handlers, g, txt, base[i].Text)
+				}
+			}
+		}
+		o.Class("shared-analysed-message-displayed-concurrently")
+	}
 	distinctTypes := map[int]bool{}
 	for _, i := range c.History {
 		distinctTypes[base[i].Type] = true
@@ -398,6 +445,24 @@ func check(c Case, o *stats.Obs) error {
 	o.NonTrivial = len(c.History) >= 2 && (len(distinctTypes) >= 2 || c.Handlers > 1)
 	o.Class(fmt.Sprintf("handlers-%d", c.Handlers))
 	return nil
+}
+
+// scribbleHeader: the owner of a decoded MSM edits the lists and the matrix of its own header.
+func scribbleHeader(h *header.Header) {
+	if h == nil {
+		return
+	}
+	for i := range h.Signals {
+		h.Signals[i] = 33
+	}
+	for i := range h.Satellites {
+		h.Satellites[i] = 65
+	}
+	for _, row := range h.Cells {
+		for i := range row {
+			row[i] = !row[i]
+		}
+	}
 }
 
 func validLen(f []byte) bool {
